@@ -16,16 +16,21 @@ TNew   == Ev.op = "new" /\ New(Ev.maxreq, Ev.max) /\ Obs
 TSet   == Ev.op = "setfile" /\ SetFile([cls |-> Ev.fcls, ents |-> Pairs(Ev.fents), max |-> Ev.fmax]) /\ Obs
 TAdd   == Ev.op = "add" /\ ~Ev.panic /\ (\E b \in {max} \cup 1..(Len(ents) + 1) : AddB(Ev.q, Ev.id, b)) /\ Obs
 TSave  == Ev.op = "save" /\ Ev.ok /\ Save /\ Obs
-TLoad  == Ev.op = "load" /\ LoadTo(ObsEnts, Ev.max) /\ (file.cls # "garbage" => last'.ok = Ev.ok) /\ Obs
+TLoad  == Ev.op = "load" /\ ~Ev.panic /\ LoadTo(ObsEnts, Ev.max) /\ (file.cls # "garbage" => last'.ok = Ev.ok) /\ Obs
 TClear == Ev.op = "clear" /\ Clear /\ Obs
 TRecent == Ev.op = "recent" /\ Ev.res = RecentOf(ents, Ev.n) /\ RO
 TTop   == Ev.op = "top" /\ TopOK(Ev.res, ents, Ev.n)
               /\ (Ev.n >= Cardinality(Queries(ents)) => SumCounts(Ev.res) = Len(ents)) /\ RO
+\* entries whose query contains a pattern: exactly those of the log (as a bag), and the log itself is left alone
+Bag(s) == [x \in {s[i] : i \in 1..Len(s)} |-> Cardinality({i \in 1..Len(s) : s[i] = x})]
+TPattern == Ev.op = "pattern"
+              /\ Bag(Pairs(Ev.res)) = Bag(SelectSeq(ents, LAMBDA e : e.q \in {Ev.mq[i] : i \in 1..Len(Ev.mq)}))
+              /\ ObsEnts = ents /\ RO
 TStats == Ev.op = "stats" /\ Ev.total = Len(ents) /\ Ev.unique = Cardinality(Queries(ents)) /\ RO
 
 TraceInit == l = 1 /\ ents = <<>> /\ max = 1 /\ file = NoFile("missing") /\ crashed = FALSE /\ last = HRet("init", 0, TRUE, 0)
 TraceNext == l <= Len(Trace) /\ l' = l + 1
-             /\ (TNew \/ TSet \/ TAdd \/ TSave \/ TLoad \/ TClear \/ TRecent \/ TTop \/ TStats)
+             /\ (TNew \/ TSet \/ TAdd \/ TSave \/ TLoad \/ TClear \/ TRecent \/ TTop \/ TPattern \/ TStats)
 TraceSpec == TraceInit /\ [][TraceNext]_tvars
 TraceAccepted ==
     LET d == TLCGet("stats").diameter IN
